@@ -16,7 +16,7 @@ for f in sys.argv[1:]:
         results.setdefault(seed, {})[check] = (code, sigs)
 
 rows = []
-for d in sorted(glob.glob(os.path.join(ROOT, "seeded", "*"))):
+for d in sorted(glob.glob(os.path.join(ROOT, "seeded", "C*"))):
     sid = os.path.basename(d)
     prop = sid.split("-")[0]
     patch = open(os.path.join(d, "patch.diff")).read()
